@@ -217,6 +217,177 @@ def oracle_misc(run):
     return bad
 
 
+# ---------------------------------------------------------------- segments whose elements share names
+DUP_CLASSES = ["Drift", "Drift", "Drift", "Quadrupole", "Quadrupole", "Quadrupole", "HorizontalCorrector", "VerticalCorrector", "Dipole",
+               "Solenoid", "Marker"]
+DUP_LEN = [0.1, 0.25, 0.37, 0.5, 1.0]
+
+
+def gen_dup_lattice(rng, depth):
+    """A segment in which DIFFERENT elements carry the SAME name (Cheetah does not enforce unique names; Segment exposes homonyms
+    as a list attribute), at top level and inside sub-segments; sub-segments may share a name with each other or with a leaf;
+    {"ref": i} repeats the very same instance as sibling i (FODO style).  No zero-length correctors (finding F29)."""
+    def leaf(name):
+        e = realgen.gen_element(rng, cls=rng.choice(DUP_CLASSES), name=name, length_pool=DUP_LEN)
+        if "k1" in e["kw"]:
+            e["kw"]["k1"] = rng.choice([0.0, 0.5, -0.5, 2.0, -3.0, 1e-3])
+        if e["cls"].endswith("Corrector") and rng.random() < 0.5:
+            e["kw"]["angle"] = 0.0
+        return e
+
+    def seg(d, name):
+        names = rng.choice([["D"], ["D", "Q"], ["D", "Q", "M"]])
+        es = [leaf(rng.choice(names)) for _ in range(rng.randrange(2, 6))]
+        if d > 0:
+            for _ in range(rng.randrange(1, 3)):
+                es.insert(rng.randrange(0, len(es) + 1), seg(d - 1, rng.choice(["cell", "cell", "D"])))
+        if rng.random() < 0.4:
+            i = rng.randrange(0, len(es))
+            if "ref" not in es[i]:
+                es.append({"ref": i})
+        return {"cls": "Segment", "name": name, "es": es}
+    return seg(depth, "root")
+
+
+def build_dup(spec):
+    import cheetah
+    if spec["cls"] != "Segment":
+        return realgen.build(spec)
+    built = []
+    for c in spec["es"]:
+        built.append(built[c["ref"]] if "ref" in c else build_dup(c))
+    return cheetah.Segment(built, name=spec["name"])
+
+
+def _thick_kicker(spec):
+    if spec.get("cls") == "Segment":
+        return any(_thick_kicker(c) for c in spec["es"])
+    return "ref" not in spec and spec["cls"].endswith("Corrector") and spec["kw"]["angle"] != 0.0 and spec["kw"]["length"] != 0.0
+
+
+def has_homonyms(spec):
+    """two different children of one segment share a name"""
+    if spec.get("cls") != "Segment":
+        return False
+    names = [c["name"] for c in spec["es"] if "ref" not in c]
+    return len(set(names)) < len(names) or any(has_homonyms(c) for c in spec["es"])
+
+
+def oracle_dup_segment(spec, res, beams):
+    """Segment.split == concatenation of each occurrence's own split (piece by piece: class and every buffer), lengths add up,
+    no piece longer than the resolution, tracking the pieces in turn == tracking the segment.  Returns a list of failures."""
+    import cheetah
+    bad = []
+    r = torch.tensor(res, dtype=DT)
+    try:
+        seg = build_dup(spec)
+        got = seg.split(r)
+    except Exception as ex:
+        return [f"building / splitting the segment raised {type(ex).__name__}: {ex}"[:300]]
+
+    def ref(e):
+        if isinstance(e, cheetah.Segment):
+            return [x for c in e.elements for x in ref(c)]
+        return e.split(r)
+    exp = ref(seg)
+    if len(got) != len(exp):
+        bad.append(f"{len(got)} pieces, the elements' own splits give {len(exp)}")
+    else:
+        for i, (a, b) in enumerate(zip(got, exp)):
+            ba, bb = dict(a.named_buffers()), dict(b.named_buffers())
+            if type(a) is not type(b) or ba.keys() != bb.keys() or not all(torch.equal(ba[k], bb[k]) for k in ba):
+                d = [k for k in ba if k in bb and not torch.equal(ba[k], bb[k])]
+                bad.append(f"piece {i} ({type(a).__name__} {a.name!r}) is not a piece of the element at that position "
+                           f"({type(b).__name__} {b.name!r}); differing: {d[:3]}")
+                break
+    tot_g = sum(float(torch.as_tensor(p.length).sum()) for p in got)
+    tot = float(torch.as_tensor(seg.length).sum())
+    if abs(tot_g - tot) > 1e-12 * max(1.0, tot):
+        bad.append(f"piece lengths add up to {tot_g}, segment length is {tot}")
+    if any(float(p.length) > res * (1 + 4e-16) for p in got if type(p).__name__ in SPLITTABLE):
+        bad.append("a piece of a splittable element is longer than the resolution")
+    bmadx = any(getattr(p, "tracking_method", "") == "bmadx" for p in exp)
+    # a corrector with a length is drift-then-kick: its pieces kick earlier than the whole, so C16 only states that the piece
+    # angles add up (checked piece by piece above); the tracking clause is for segments without such a kicker
+    thick_kicker = any(type(p).__name__.endswith("Corrector") and float(p.angle) != 0.0 and float(p.length) != 0.0 for p in exp)
+    for bname, b in beams:
+        if (bmadx and bname != "particle") or thick_kicker:
+            continue
+        try:
+            whole = seg.track(b)
+        except Exception:
+            continue                                   # the segment itself cannot track this beam: nothing to compare with
+        try:
+            out = b
+            for p in got:
+                out = p.track(out)
+        except Exception as ex:
+            bad.append(f"tracking the pieces raised {type(ex).__name__}: {ex}"[:300])
+            continue
+        if has_nan(whole):
+            continue
+        for k, x in whole.named_buffers():
+            y = dict(out.named_buffers()).get(k)
+            tol = 1e-9 * max(1e-30, float(x.abs().max())) + 1e-15
+            if y is None or x.shape != y.shape or not float((x - y).abs().max()) <= tol:
+                bad.append(f"tracking the {len(got)} pieces in turn differs from tracking the segment ({bname} beam, {k}: "
+                           f"{'shape' if y is None or x.shape != y.shape else float((x - y).abs().max())})")
+                break
+    return bad
+
+
+def shrink_dup(spec, res, beams):
+    """drop children (keeping {"ref": i} consistent) while the segment keeps failing"""
+    def drop(s, path):
+        import copy
+        t = copy.deepcopy(s)
+        node = t
+        for i in path[:-1]:
+            node = node["es"][i]
+        k = path[-1]
+        if len(node["es"]) <= 1 or any(c.get("ref") == k for c in node["es"]):
+            return None
+        del node["es"][k]
+        for c in node["es"]:
+            if "ref" in c and c["ref"] > k:
+                c["ref"] -= 1
+        return t
+
+    def paths(s, p=()):
+        for i, c in enumerate(s.get("es", [])):
+            yield p + (i,)
+            if c.get("cls") == "Segment":
+                yield from paths(c, p + (i,))
+    changed = True
+    while changed:
+        changed = False
+        for p in list(paths(spec)):
+            t = drop(spec, p)
+            if t is not None and oracle_dup_segment(t, res, beams):
+                spec, changed = t, True
+                break
+    return spec
+
+
+def oracle_dup(run, beams, n):
+    bad = []
+    for i in range(n):
+        depth = [0, 1, 2][i % 3]
+        spec = gen_dup_lattice(run.rng, depth)
+        res = run.rng.choice([0.05, 0.1, 0.2, 0.3])
+        run.count("segment_homonyms_" + ("flat" if depth == 0 else "nested"))
+        if any("ref" in c for c in spec["es"]):
+            run.count("segment_reused_instance")
+        run.add_case(["dup_segment", spec, res], has_homonyms(spec))
+        fails = oracle_dup_segment(spec, res, beams)
+        run.count("segment_homonyms_tracked" if not _thick_kicker(spec) else "segment_homonyms_split_only")
+        if fails and not bad:
+            small = shrink_dup(spec, res, beams)
+            bad.append({"kind": "dup_segment", "lattice": small, "res": res, "failures": oracle_dup_segment(small, res, beams) or fails,
+                        "what": "Segment.split of a segment whose elements share names"})
+    return bad
+
+
 def replay_known(run):
     for f in common.load_known_findings(PID):
         if f.get("status") != "known":
@@ -237,7 +408,10 @@ def main(tier, replay=None):
                        "(length, resolution) pairs: generic, resolution >= length, exactly dividing, non-dividing, ratio within a few ulps of an "
                        "integer, length 0, very fine resolution; piece count and float64 piece lengths / angles compared (as exact rationals) with "
                        "vm_compute of the rational model; plus sums, bounds, dtype, attributes, sequential tracking of the pieces vs the whole on "
-                       "both beam types, unsplittable classes, segments, vectorised lengths. Non-trivial = more than one piece; distinct by case content.")
+                       "both beam types, unsplittable classes, segments (uniquely named; and segments in which different elements / sub-segments "
+                       "share a name, flat and nested, with reused instances: split == concatenation of each occurrence's own split, lengths add "
+                       "up, tracking the pieces == tracking the segment), vectorised lengths. Non-trivial = more than one piece; distinct by "
+                       "case content.")
     if replay:
         return do_replay(run, replay)
     proof_ok = run.proof_stage()
@@ -274,9 +448,11 @@ def main(tier, replay=None):
     failing = common.run_shards(PID, "split", PREAMBLE, terms, "c16_check")
     run.cov["traces_validated_against_impl"] += len(cases)
     misc_bad = oracle_misc(run)
+    misc_bad += oracle_dup(run, beams, 150 if thorough else 15)
     replay_known(run)
     run.cov["tested_only"] = ["sequential tracking of the pieces vs the whole on the real classes (float64, rtol 1e-9), incl. Bmad-X tracking (no Coq model of Bmad-X here)",
-                              "dtype preservation, attribute preservation, unsplittable classes return [self], Segment.split concatenation, vectorised lengths"]
+                              "dtype preservation, attribute preservation, unsplittable classes return [self], Segment.split concatenation (incl. segments with "
+                              "homonymous elements / sub-segments and reused instances, pieces tracked in turn vs Segment.track), vectorised lengths"]
 
     if impl_bad:
         c, bad = impl_bad[0]
@@ -299,6 +475,12 @@ def do_replay(run, path):
         beams = [("particle", realgen.build_beam(realgen.gen_particle_beam(run.rng, n=4, energy=2e7))),
                  ("parameter", realgen.build_beam(realgen.gen_parameter_beam(run.rng, energy=1e8)))]
         known, bad = oracle_case(r["case"], run.rng, beams)
+        print("replay:", "property holds on this input" if not bad else f"property FAILS on this input: {bad}")
+        return 1 if bad else 0
+    if r.get("kind") == "dup_segment":
+        beams = [("particle", realgen.build_beam(realgen.gen_particle_beam(run.rng, n=4, energy=2e7))),
+                 ("parameter", realgen.build_beam(realgen.gen_parameter_beam(run.rng, energy=1e8)))]
+        bad = oracle_dup_segment(r["lattice"], r["res"], beams)
         print("replay:", "property holds on this input" if not bad else f"property FAILS on this input: {bad}")
         return 1 if bad else 0
     print("replay: re-running the miscellaneous oracle")
